@@ -6,6 +6,11 @@ C19.inventory  A9: every diverging site in the cone of step is classified D (by-
 C19.panic      the evidently failing X / DA / tainted-O sites found by the path analyses of the handlers (every Code x
                decoder-producible shape), the accessors, the address computation, the decoder front end, the trace
                recorder, the error decorators' renderers and the built-in syscall hooks -- each must be a known finding
+C19.slices     every slice / vector index, range index, copy_from_slice, split and drain site in the cone of step either
+               lies in one of the bounds-analysed accessors (decided for all endpoint orderings by C08.bounds together
+               with C08.invariant) or has its bound tied to the indexed length on every path of its function: same
+               quantity, min() with the length, a dominating comparison (also shifted by the same amount on both
+               sides), a constant below a known length, or the enumerate() index of the iterated vector
 C19.decode     undecodable bytes -> Err; unsupported mnemonic / unimplemented opcode -> by-design rejection
 C19.assert     every `debug_assert_eq!(i.code(), C)` agrees with the dispatch arm that reaches it
 C19.loops      no free loop without a variant in the cone of step
@@ -68,7 +73,239 @@ def run(ctx):
     sub(ctx)
     decode(ctx)
     hooks(ctx)
+    slices(ctx, cone)
     loops(ctx, cone)
+
+
+# --------------------------------------------------------------------------- slice bounds
+
+PANICKY_SEQ = ("copy_from_slice", "clone_from_slice", "split_at", "split_at_mut", "drain", "split_off", "swap_remove")
+
+
+def seq_site(t):
+    """is this call a slice/vector operation that panics on an out-of-range bound?"""
+    if t["k"] != "call":
+        return None
+    n = F.callee_name(t)
+    short = n.rsplit("::", 1)[1].split("::<")[0] if "::" in n else n
+    if "ops::Index" in n and short in ("index", "index_mut"):
+        return short
+    if short in PANICKY_SEQ and ("slice" in n or "Vec" in n or "<impl [T]>" in n):
+        return short
+    if n.startswith("std::vec::Vec") and short in ("remove", "insert"):
+        return short
+    return None
+
+
+def enumerate_index_provenance(body, idx_op, depth=0, seen=None):
+    """flow-insensitive backward slice of an index operand over the function's MIR: True iff every definition it can
+    derive from is field 0 of the tuple produced by Enumerate<..>::next (possibly moved through Option / tuples /
+    casts). Used for indices the path analysis lost to loop widening."""
+    if seen is None:
+        seen = set()
+    if idx_op[0] == "k":
+        return False
+    if idx_op[0] not in ("c", "m") or depth > 12:
+        return False
+    loc = idx_op[1][0]
+    if loc in seen:
+        return True
+    seen.add(loc)
+    found = False
+    for blk in body["blocks"]:
+        t = blk["term"]
+        if t["k"] == "call" and t.get("dest") and t["dest"][0] == loc:
+            n = F.callee_name(t)
+            if n.endswith("::next") and "Enumerate" in " ".join(t["f"].get("gargs", []) + [n]):
+                found = True
+                continue
+            if n.endswith(" as std::ops::Try>::branch") or n.endswith("::unwrap") or n.endswith("::expect"):
+                if t["args"] and enumerate_index_provenance(body, t["args"][0], depth + 1, seen):
+                    found = True
+                    continue
+            return False
+        for st in blk["s"]:
+            if st[0] != "a" or st[1][0] != loc:
+                continue
+            rv = st[2]
+            if rv[0] == "use" or rv[0] == "cast":
+                src = rv[1] if rv[0] == "use" else rv[2]
+                if src[0] == "k":
+                    # constants only as Option::None-like initialisers (aggregates); a plain constant index is not this idiom
+                    return False
+                if not enumerate_index_provenance(body, src, depth + 1, seen):
+                    return False
+                found = True
+            elif rv[0] == "agg":
+                ops = rv[2]
+                if not ops:
+                    found = found or False  # None / unit: contributes no index
+                    continue
+                for o_ in ops:
+                    if o_[0] == "k" or not enumerate_index_provenance(body, o_, depth + 1, seen):
+                        return False
+                found = True
+            elif rv[0] in ("discr", "ref"):
+                continue
+            else:
+                return False
+    return found
+
+
+def shrinks_vector(body):
+    for blk in body["blocks"]:
+        t = blk["term"]
+        if t["k"] == "call":
+            n = F.callee_name(t)
+            short = n.rsplit("::", 1)[1].split("::<")[0] if "::" in n else n
+            if n.startswith("std::vec::Vec") and short in ("remove", "swap_remove", "truncate", "clear", "pop", "drain", "retain", "split_off"):
+                return True
+    return False
+
+
+def slices(ctx, cone):
+    from .. import memmodel as M
+    from .. import seqmodel as SQ
+    from . import C09
+    ck, facts = ctx.check, ctx.facts
+    acc = {b["path"] for api, b, bit, mk, ext in C09.accessor_specs(ctx)}
+    by_body = {}
+    for k in sorted(cone):
+        b = facts.bodies[k]
+        if b["glue"]:
+            continue
+        reach = F.reachable_blocks(b)
+        for i, blk in enumerate(b["blocks"]):
+            if i in reach and seq_site(blk["term"]):
+                by_body.setdefault(k, []).append(F.site_str(b, blk["term"]["sp"]))
+    nsites = sum(len(v) for v in by_body.values())
+    ck.cov["slice_sites"] = nsites
+    ck.cov["slice_sites_in_bounds_analysed_accessors"] = sum(len(v) for k, v in by_body.items() if k in acc)
+    ck.floor("slice/index sites in the cone (positive control)", nsites, 10)
+
+    def norm(t):
+        """len(x) spellings: vec![e; n] has length n; area.data has length area.length (C08.invariant);
+        membytes(addr, n) has length n"""
+        if not isinstance(t, tuple) or not t:
+            return t
+        if t[0] == "len" and len(t) == 2 and isinstance(t[1], tuple):
+            x = t[1]
+            while x[0] in ("deref", "w"):
+                x = x[1]
+            if x[0] == "ret" and x[1].endswith("from_elem") and len(x[2]) == 2:
+                return norm(x[2][1])
+            if x[0] == "membytes":
+                return norm(x[2])
+            if x[0] == "ret" and "ops::Index" in x[1] and len(x[2]) == 2:
+                b_ = SQ.range_bounds(x[2][1])
+                if b_ is not None:
+                    hi = b_[1] if b_[1] is not None else ("len", x[2][0])
+                    return norm(("bin", "Sub", hi, b_[0], 64))
+            if x[0] == "field" and x[2] == "data":
+                return ("field", norm(x[1]), "length")
+            return ("len", norm(x))
+        if t[0] == "w":
+            return norm(t[1])
+        if t[0] == "cast" and ((t[4] >= t[2] and not t[3]) or t[4] == t[2]):
+            return norm(t[1])
+        return tuple(norm(x) if isinstance(x, tuple) else x for x in t)
+
+    for k, sites in sorted(by_body.items()):
+        b = facts.bodies[k]
+        inst = "fn=%s" % k.split("::")[-1] if "{closure" not in k else "fn=%s" % "::".join(k.split("::")[-2:])
+        where = "%s:%d (%s)" % (b["span"][0], b["span"][1], b["name"] or "closure")
+        if k in acc:
+            ck.ok("C19.slices", inst + ",covered-by=C08.bounds", len(sites))
+            continue
+        seen_sites = set()
+
+        def icpt(I, path, frame, t, name, args, _chain=[None]):
+            kind = seq_site(t)
+            if kind and frame.body["path"] == k:
+                site = F.site_str(frame.body, t["sp"])
+                seen_sites.add(site)
+                a = [I._deref_all(path, x) for x in args]
+                path.events.append(("seqop", kind, tuple(a), site, len(path.conds), tuple(t["args"])))
+            return _chain[0](I, path, frame, t, name, args)
+        # runner
+        if b["kind"] == "Closure":
+            sm = SQ.SeqMapPrims(facts, ("pipes_read_ends", "pipes_write_ends", "pipe_contents"), ("pipe_contents",))
+            icpt.__defaults__[0][0] = lambda I, path, frame, t, name, args: None
+            outs, I, _ = C13.run_hook_closure(ctx, k, lambda *a: (icpt(*a) or sm.intercept(*a)))
+        else:
+            mp = M.MemPrims(facts, extra=None)
+            pr = P.HandlerPrims(facts, ctx.roles)
+            icpt.__defaults__[0][0] = lambda I, path, frame, t, name, args: (
+                mp.intercept(I, path, frame, t, name, args) or
+                (pr.intercept(I, path, frame, t, name, args) if frame.body["path"] != k or name != k else None))
+            I = A.Interp(facts, intercept=icpt, max_paths=20000)
+            args = []
+            for i in range(1, b["argc"] + 1):
+                ty = b["locals"][i]
+                if isinstance(ty, list) and ty[0] == "ref" and ty[2] == ["adt", "axecutor::Axecutor", []]:
+                    args.append(P.self_ref(bool(ty[1])))
+                elif isinstance(ty, list) and ty[0] in ("u", "i"):
+                    args.append(A.W(("param", i), 64))
+                elif ty == ["adt", "iced_x86::Instruction", []]:
+                    args.append(P.INSTR)
+                else:
+                    args.append(("param", i))
+            outs = list(I.run(b, args, A.Path()))
+        bad = None
+        nob = 0
+        for o in outs:
+            if o.kind == "cut":
+                ck.undecided_("C19.slices", inst, "analysis cut at %s" % (o.site,))
+                continue
+            for e in o.path.events:
+                if e[0] != "seqop":
+                    continue
+                _, kind, a, site, upto, raw = e
+                obs = []
+                if kind in ("index", "index_mut", "drain"):
+                    ln = ("len", a[0])
+                    rb = SQ.range_bounds(a[1]) if a[1][0] == "agg" else None
+                    if rb is not None:
+                        if rb[1] is not None:
+                            obs.append(("range end <= length", rb[1], ln, False))
+                            if not (A.is_int(rb[0]) and rb[0][1] == 0):
+                                obs.append(("range start <= end", rb[0], rb[1], False))
+                        else:
+                            obs.append(("range start <= length", rb[0], ln, False))
+                    elif a[1][0] == "agg":
+                        obs.append(("unsupported range kind", A.INT(1, 64), A.INT(0, 64), False))
+                    else:
+                        obs.append(("index < length", a[1], ln, True))
+                elif kind in ("copy_from_slice", "clone_from_slice"):
+                    obs.append(("destination not longer than source", ("len", a[0]), ("len", a[1]), False))
+                    obs.append(("source not longer than destination", ("len", a[1]), ("len", a[0]), False))
+                elif kind in ("split_at", "split_at_mut", "split_off"):
+                    obs.append(("split point <= length", a[1], ("len", a[0]), False))
+                elif kind in ("remove", "swap_remove"):
+                    obs.append(("index < length", a[1], ("len", a[0]), True))
+                elif kind == "insert":
+                    obs.append(("index <= length", a[1], ("len", a[0]), False))
+                for what, x, y, strict in obs:
+                    nob += 1
+                    if SQ.implies_le(o.path, x, y, None, strict, norm):
+                        continue
+                    sx = U.strip(norm(x))
+                    if sx == ("enum_idx",) or (sx[0] == "w" and sx[1] == ("enum_idx",)):
+                        continue  # the enumerate() index of the vector being iterated
+                    if what == "index < length" and "'top'" in repr(sx) and len(raw) == 2 and not shrinks_vector(b) \
+                            and enumerate_index_provenance(b, raw[1]):
+                        continue  # widened by the path analysis; every definition is an enumerate() index (MIR slice)
+                    bad = bad or "%s at %s: %s %s %s is not established on the path" % (
+                        kind, site.rsplit(":", 1)[0].rsplit("/", 1)[-1], A.show(U.strip(norm(x)))[:48], "<" if strict else "<=",
+                        A.show(U.strip(norm(y)))[:48])
+        missing = set(sites) - seen_sites
+        if missing and not bad:
+            bad = "%d of %d slice sites not reached by the analysis (%s)" % (len(missing), len(set(sites)), sorted(missing)[0])
+        if bad:
+            ck.violation("C19.slices", inst, bad, where=where,
+                         what="an out-of-range slice bound panics instead of returning an error")
+        else:
+            ck.ok("C19.slices", inst, max(nob, 1))
 
 
 # --------------------------------------------------------------------------- inventory
